@@ -16,6 +16,7 @@ import Banyan.Lemmas.C11VarArray
 import Banyan.Lemmas.C11Total
 import Banyan.Lemmas.C11Tag
 import Banyan.Lemmas.C11Float
+import Banyan.Lemmas.C11Engine
 import Banyan.Lemmas.Entity
 
 namespace Banyan.C11
@@ -314,6 +315,18 @@ theorem tagValues_float_rt (z : Zstd) (hz : z.Lawful) (fd : FloatDec) (values : 
       rw [← hb]
       exact tag_float64_rt z hz fd (v :: vs) hok buf et h
 
+/-- The engines' own tag value marshalling (`encodeTagValue` + `marshal` on the write path,
+    `mustDecodeTagValue` on the query path; measure and stream with their private `marshalVarArray` /
+    `unmarshalVarArray` copies, `own = true`, trace via pkg/encoding, `own = false`): every string,
+    binary, int, non-empty string array (any bytes incl. `|`, `\`, empty and trailing-escape elements),
+    non-empty int array and post-epoch timestamp is read back exactly. -/
+theorem engineTag_rt (own : Bool) (tv : TagVal) (vt : TVType) (hvt : tv.type? = some vt) (hwf : tv.WF) :
+    engineDecode own vt (engineMarshal tv) = .ok tv :=
+  engineTag_rt_aux own tv vt hvt hwf
+
+/-- a null value is stored as nil and read back as null, whatever the tag type. -/
+theorem engineTag_null_rt (own : Bool) (vt : TVType) : engineDecode own vt (engineMarshal .null) = .ok .null := rfl
+
 /-! ## 7. decoders are total and bounded -/
 
 /-- no varint decoder faults, on any bytes; exactly the requested number of values comes back. -/
@@ -419,6 +432,10 @@ example : int64ListToBytes [1#64, 2#64, 4#64, 8#64] = .ok ([2, 2, 4], mtDeltaOfD
 
 example : (encodeTagValues idZ fdZero [some [128, 0, 0, 0, 0, 0, 0, 5], some [128, 0, 0, 0, 0, 0, 0, 7]] .int64).isPanic
     = false := by decide
+
+example : (TagVal.strArr [[67, 58, 92, 116], [100, 105, 114, 92], [], [124]]).WF := by simp [TagVal.WF]
+
+example : engineMarshal (.strArr [[100, 105, 114, 92], [110]]) = some [100, 105, 114, 92, 92, 124, 110, 124] := by decide
 
 example : mulPow10Fast 922337203685477580#64 1#16 = some 9223372036854775800#64 ∧
     mulPow10Fast 922337203685477581#64 1#16 = none := by decide
